@@ -4,8 +4,7 @@
      fftw::sign / forward / backward    :344-363   (FFTW_FORWARD = -1, FFTW_BACKWARD = +1)
      fftw::plan (ctor, execute, dtor)   :399-447   (unique_ptr with fftw_destroy_plan deleter)
      fftw::dft / dft_forward / dft_backward / in-place overload   :506-534
-   and /usr/include/fftw3.h (fftw_iodim64 = {n, is, os}; FFTW_ESTIMATE = 1<<6,
-   FFTW_PRESERVE_INPUT = 1<<4).
+   and /usr/include/fftw3.h (fftw_iodim64 = {n, is, os}; the planner flags :492-500).
    Pointers are integer offsets (in elements, i.e. in std::complex<double> = fftw_complex units)
    from data_elements() of the root array, as everywhere in the model (DESIGN.md section 3).
    Definitions only. *)
@@ -40,8 +39,36 @@ Definition plan_of (which : list bool) (sizes istr ostr : list Z) : list iodim *
 
 Definition FFTW_FORWARD : Z := -1.
 Definition FFTW_BACKWARD : Z := 1.
-Definition FFTW_ESTIMATE : Z := 64.          (* 1U << 6 *)
+(* fftw3.h:492-500, the documented planner flags *)
+Definition FFTW_MEASURE : Z := 0.            (* 0U: the default planning rigor *)
+Definition FFTW_DESTROY_INPUT : Z := 1.      (* 1U << 0 *)
+Definition FFTW_UNALIGNED : Z := 2.          (* 1U << 1 *)
+Definition FFTW_EXHAUSTIVE : Z := 8.         (* 1U << 3 *)
 Definition FFTW_PRESERVE_INPUT : Z := 16.    (* 1U << 4 *)
+Definition FFTW_PATIENT : Z := 32.           (* 1U << 5 *)
+Definition FFTW_ESTIMATE : Z := 64.          (* 1U << 6 *)
+Definition FFTW_WISDOM_ONLY : Z := 2097152.  (* 1U << 21 *)
+
+(* FFTW manual 4.3.2 "Planner Flags":
+     "FFTW_ESTIMATE specifies that, instead of actual measurements of different algorithms, a simple
+      heuristic is used to pick a (probably sub-optimal) plan quickly.  With this flag, the input/output
+      arrays are not overwritten during planning."
+     "FFTW_MEASURE tells FFTW to find an optimized plan by actually computing several FFTs and measuring
+      their execution time. ... This is the default planning option."  (FFTW_PATIENT, FFTW_EXHAUSTIVE:
+      like FFTW_MEASURE, wider search.)
+     "FFTW_WISDOM_ONLY is a special planning mode in which the plan is only created if wisdom is available
+      for the given problem, and otherwise a NULL plan is returned."
+   and 4.3.1 / 2.1: "you must create the plan before initializing the input, because FFTW_MEASURE
+   overwrites the in/out arrays"; "The only exceptions to this are the FFTW_ESTIMATE and FFTW_WISDOM_ONLY
+   flags".  So, as a definition: creating a plan leaves the arrays alone exactly when one of the two bits
+   is present, whatever the size of the transform; and a plan is guaranteed to exist (for dimensions FFTW
+   accepts) only without FFTW_WISDOM_ONLY. *)
+Definition planning_preserves_arrays (flags : Z) : bool :=
+  Z.testbit flags 6 || Z.testbit flags 21.
+Definition planning_needs_wisdom (flags : Z) : bool := Z.testbit flags 21.
+(* the adaptor's own flag constants, fftw.hpp:29-44 *)
+Definition fftw_flags_estimate : Z := FFTW_ESTIMATE.
+Definition fftw_flags_measure : Z := FFTW_MEASURE.
 
 (* the argument list of fftw_plan_guru64_dft *)
 Record guru_call := mkguru {
@@ -51,10 +78,11 @@ Record guru_call := mkguru {
   g_sign : Z; g_flags : Z }.
 
 (* fftw.hpp:275-321.  sizes and input strides come from in_layout, output strides from
-   out_layout; rank = dims_end - dims.begin(); the flags parameter is ignored and the call passes
-   FFTW_ESTIMATE | FFTW_PRESERVE_INPUT. *)
+   out_layout; rank = dims_end - dims.begin(); the pointers are handed on as they come; the last
+   parameter (fftw::flags, unnamed at :276) is ignored and the call passes the constant
+   FFTW_ESTIMATE | FFTW_PRESERVE_INPUT (:315) -- for every size. *)
 Definition fftw_plan_dft (which : list bool) (in_base : Z) (in_layout : layout)
-                         (out_base : Z) (out_layout : layout) (sign : Z) : guru_call :=
+                         (out_base : Z) (out_layout : layout) (sign : Z) (_flags : Z) : guru_call :=
   let '(dims, hdims) := plan_of which (l_sizes in_layout) (l_strides in_layout) (l_strides out_layout) in
   mkguru (Z.of_nat (length dims)) dims (Z.of_nat (length hdims)) hdims in_base out_base sign
          (Z.lor FFTW_ESTIMATE FFTW_PRESERVE_INPUT).
@@ -63,6 +91,9 @@ Definition fftw_plan_dft (which : list bool) (in_base : Z) (in_layout : layout)
    every vector ("howmany") dimension has n >= 0); otherwise fftw_plan_guru64_dft returns NULL. *)
 Definition guru_kosher (g : guru_call) : bool :=
   forallb (fun d => 0 <? io_n d) (g_dims g) && forallb (fun d => 0 <=? io_n d) (g_hdims g).
+(* a non-NULL plan is guaranteed: accepted dimensions, and not the wisdom-only mode *)
+Definition plan_nonnull (g : guru_call) : bool :=
+  guru_kosher g && negb (planning_needs_wisdom (g_flags g)).
 
 (* The external calls one front-end call performs, in order. *)
 Inductive fftw_event :=
@@ -70,11 +101,22 @@ Inductive fftw_event :=
 | EvExecute (pin pout : Z)          (* fftw_execute_dft(plan, in, out) *)
 | EvDestroy.                        (* fftw_destroy_plan(plan) *)
 
+(* the plan constructor (:409-417): fftw_plan_dft(which, in_base, in_layout, out_base, out_layout, sign,
+   fftw::estimate) *)
+Definition plan_ctor (which : list bool) (in_base : Z) (in_layout : layout)
+                     (out_base : Z) (out_layout : layout) (sign : Z) : guru_call :=
+  fftw_plan_dft which in_base in_layout out_base out_layout sign fftw_flags_estimate.
+
 (* An explicit plan object used once: plan::forward/backward(which, in.base(), in.layout(), out.base(),
    out.layout()) or plan{..., dir} (:409-425), .execute(in.base(), out.base()) (:427-440); the plan is
-   destroyed when the object dies (unique_ptr deleter, :402, :414). *)
+   destroyed when the object dies (unique_ptr deleter, :402, :414).
+   base() (array_ref.hpp:252) is the address of the view's FIRST element -- the element whose indices are
+   the first index of every extension -- and that is what both the planning call and the execute call
+   receive.  origin() (array_ref.hpp:255, 2044: base_ + layout().origin(), layout.hpp:766: sub_.origin() -
+   offset_) is the address the element with all indices 0 would have; the two coincide only for views
+   whose extensions start at 0 (v_origin below; it is NOT what the calls receive). *)
 Definition fe_plan_execute (which : list bool) (vin vout : view) (sign : Z) : list fftw_event :=
-  [ EvPlan (fftw_plan_dft which (base vin) (lay vin) (base vout) (lay vout) sign);
+  [ EvPlan (plan_ctor which (base vin) (lay vin) (base vout) (lay vout) sign);
     EvExecute (base vin) (base vout);
     EvDestroy ].
 (* fftw.hpp:506-513 (after fix c24dd02):
@@ -108,6 +150,15 @@ Definition fe_fft_range (which : list bool) (vin vout : view) (sign : Z) : list 
 Definition iter_pair_okb (count : Z) (v : view) : bool :=
   match lay v with
   | d :: sub => (d_offset d =? 0) && (d_nelems d =? count * d_stride d)
+  | [] => true
+  end.
+
+(* ... and, whatever its first index, when its leading dimension holds `count` whole strides: the rebuilt view
+   then differs from the operand in the leading OFFSET only (it is always 0), which neither the plan (sizes,
+   strides) nor the pointers (base) depend on *)
+Definition iter_pair_sizeb (count : Z) (v : view) : bool :=
+  match lay v with
+  | d :: sub => d_nelems d =? count * d_stride d
   | [] => true
   end.
 
@@ -164,6 +215,28 @@ Fixpoint merge (m : list bool) (b t : list Z) : list Z :=
   | true :: m' => hd 0 t :: merge m' b (tl t)
   | false :: m' => hd 0 b :: merge m' (tl b) t
   end.
+
+(* layout.hpp:766, :1093: origin() = sub_.origin() - offset_, 0 for D = 0; array_ref.hpp:255: base_ + that *)
+Fixpoint l_origin (l : layout) : Z :=
+  match l with [] => 0 | d :: sub => l_origin sub - d_offset d end.
+Definition v_origin (v : view) : Z := base v + l_origin (lay v).
+
+(* the first index of every extension, and index tuples counted from there *)
+Definition firsts (l : layout) : list Z := map (fun d => fst (d_extension d)) l.
+Fixpoint vaddz (a b : list Z) : list Z :=
+  match a, b with x :: a', y :: b' => (x + y) :: vaddz a' b' | _, _ => [] end.
+(* the index tuples of a view, in canonical order: k + firsts for every zero-based position k *)
+Definition ext_tuples (l : layout) : list (list Z) := map (fun k => vaddz k (firsts l)) (tuples (l_sizes l)).
+(* the element addresses of a view with any index base: its own bracket arithmetic on its own index set *)
+Definition footprint_x (v : view) : list Z := map (v_addr v) (ext_tuples (lay v)).
+(* the cell of the plan a view element corresponds to: positions (zero-based, FFTW's own numbering) split by
+   the mask, and the element's distance from the FIRST element of either view *)
+Definition view_cell_x (which : list bool) (vin vout : view) (k : list Z) : cell :=
+  (select (map negb which) k, select which k,
+   v_addr vin (vaddz k (firsts (lay vin))) - v_addr vin (firsts (lay vin)),
+   v_addr vout (vaddz k (firsts (lay vout))) - v_addr vout (firsts (lay vout))).
+Definition view_cells_x (which : list bool) (vin vout : view) : list cell :=
+  map (view_cell_x which vin vout) (tuples (l_sizes (lay vin))).
 
 Definition zero_based (l : layout) : Prop := Forall (fun d => d_offset d = 0) l.
 Definition zero_basedb (l : layout) : bool := forallb (fun d => d_offset d =? 0) l.
